@@ -193,3 +193,7 @@ impl TryFrom<Expr> for Value {
         }
     }
 }
+
+#[cfg(kani)]
+#[path = "/verif/kani/convert.rs"]
+mod kani_verif;
